@@ -438,14 +438,36 @@ func (h H) appendRefusalJustified(rule string) {
 		r := fi.MustCross(c, pass)
 		h.C.Check(rule, fmt.Sprintf("(*Raft).onAppendEntriesRequest refusal %s", res), r.OK, h.pos(c), "the request is refused on a path where the protocol's reason for this result does not hold: "+r.Witness)
 	})
-	h.C.Floor(rule+" (refusals of the append handler)", n, 3)
-	// the only other results are success and the two error kinds
+	// the only other results are success and the two error kinds; a refusal
+	// returned as a plain value (the drain helper written as a function and
+	// expanded, or no helper at all) is judged where the value was chosen
 	succ, rerr, unexp := h.constStr("raft:success"), h.constStr("raft:readErr"), h.constStr("raft:unexpectedErr")
 	for k, r := range core.Returns(fn) {
-		v := h.retVal(r, 0).String()
-		ok := v == succ || v == rerr || v == unexp || strings.HasPrefix(v, "(*Raft).onAppendEntriesRequest$")
-		h.C.Check(rule+" results", fmt.Sprintf("(*Raft).onAppendEntriesRequest return#%d", k+1), ok, h.pos(r), "unexpected result "+v)
+		v0 := r.Results[0]
+		if u, isLoad := v0.(*ssa.UnOp); isLoad { // defer-spilled result
+			if a, isCell := u.X.(*ssa.Alloc); isCell {
+				for j := len(r.Block().Instrs) - 1; j >= 0; j-- {
+					if st, isSt := r.Block().Instrs[j].(*ssa.Store); isSt && st.Addr == ssa.Value(a) {
+						v0 = st.Val
+						break
+					}
+				}
+			}
+		}
+		for j, lf := range h.leavesAt(v0, r, 0) {
+			v := fi.SymAt(lf.V, lf.At).String()
+			site := fmt.Sprintf("(*Raft).onAppendEntriesRequest return#%d.%d", k+1, j+1)
+			if pass, isRefusal := want[v]; isRefusal {
+				n++
+				res := fi.MustCross(lf.At, pass)
+				h.C.Check(rule, site+" refusal "+v, res.OK, h.pos(lf.At), "the request is refused on a path where the protocol's reason for this result does not hold: "+res.Witness)
+				continue
+			}
+			ok := v == succ || v == rerr || v == unexp || strings.HasPrefix(v, "(*Raft).onAppendEntriesRequest$")
+			h.C.Check(rule+" results", site, ok, h.pos(r), "unexpected result "+v)
+		}
 	}
+	h.C.Floor(rule+" (refusals of the append handler)", n, 3)
 }
 
 // commitThenApply (C17.6): whenever a node advances its commit index it hands
